@@ -228,13 +228,17 @@ func c18Compromise(w *mon.W, id string, tid int, t1, t2 codon.Table, s1, s2 plai
 				}
 				return false
 			}
-			below := rho1 < c-1e-4 || rho2 < c-1e-4
-			above := rho1 >= c+1e-4 && rho2 >= c+1e-4
+			// "below the cut-off" on the 10000 scale, whichever way an implementation rounds: certainly below when
+			// even the rounded-up share is under the rounded-down cut-off, certainly not below when even the
+			// rounded-down share reaches the rounded-up cut-off (a share of exactly 0 is not below a cut-off of 0)
+			cutLo, cutHi := int(math.Floor(10000*c)), int(math.Ceil(10000*c))
+			below := c1 < cutLo || c2 < cutLo
+			above := f1 >= cutHi && f2 >= cutHi
 			switch {
 			case below:
 				w.Add("zeroed_by_cutoff", 1)
 				if got != 0 {
-					w.Violation(id, fmt.Sprintf("cut-off %g: codon %s (%s) has shares %.5f and %.5f, one more than 1/10000 below the cut-off, but weight %d instead of 0", c, cd, l, rho1, rho2, got), rep)
+					w.Violation(id, fmt.Sprintf("cut-off %g: codon %s (%s) has shares %.5f and %.5f, one of them below the cut-off under any rounding, but weight %d instead of 0", c, cd, l, rho1, rho2, got), rep)
 				}
 			case above:
 				if !meanOK(got) {
